@@ -720,6 +720,48 @@ pub fn cmd_replay(path: &str, json_out: bool) -> i32 {
             return 2;
         }
     };
+    if !json_out {
+        // user-facing replay: the plan itself runs in a child process, so that a plan which kills
+        // the process (abort on a double panic, segfault) or never ends is still reported properly
+        let exe = std::env::current_exe().expect("current_exe");
+        let mut child = match Command::new(&exe).arg("replay").arg(path).arg("--json").stdin(Stdio::null()).stderr(Stdio::null()).stdout(Stdio::piped()).spawn() {
+            Ok(c) => c,
+            Err(e) => {
+                eprintln!("HARNESS-ERROR: cannot spawn replay child: {e}");
+                return 2;
+            }
+        };
+        let limit: u64 = std::env::var("KSIM_REPLAY_TIMEOUT_S").ok().and_then(|s| s.parse().ok()).unwrap_or(30);
+        let st = wait_deadline(&mut child, std::time::Duration::from_secs(limit));
+        let mut stdout = Vec::new();
+        if let Some(mut o) = child.stdout.take() {
+            use std::io::Read;
+            let _ = o.read_to_end(&mut stdout);
+        }
+        let v: Option<Violation> = match st.map(|s| s.code()) {
+            None => Some(viol("process-hang", usize::MAX, format!("the plan did not finish within {limit} s (bounded progress)"))),
+            Some(Some(0)) => None,
+            Some(Some(1)) => Some(serde_json::from_slice::<Violation>(&stdout).unwrap_or_else(|_| viol("unknown", 0, String::new()))),
+            Some(Some(2)) => {
+                eprintln!("HARNESS-ERROR: replay child reported a harness error");
+                return 2;
+            }
+            Some(code) => Some(viol("process-crash", usize::MAX, format!("the process executing the plan died (exit code {:?}, i.e. a signal or abort)", code))),
+        };
+        return match v {
+            None => {
+                println!("replay {}: property {} held on this plan (profile {})", path, rf.property, profile_name());
+                0
+            }
+            Some(v) => {
+                println!("replay {}: class={} step={} detail={}", path, v.class, v.step, v.detail);
+                let same = v.class == rf.violation.class && v.step == rf.violation.step;
+                println!("same-as-recorded={same}");
+                println!("VIOLATION property={} replay={}", rf.property, path);
+                1
+            }
+        };
+    }
     // bounded progress: a plan that does not finish is reported as a hang, not waited for
     {
         let (prop, path, json_out) = (rf.property.clone(), path.to_string(), json_out);
